@@ -661,6 +661,16 @@ func (w *World) execUnOp(fr *Frame, st *State, ins *ssa.UnOp) {
 		if fa, ok := ins.X.(*ssa.FieldAddr); ok {
 			w.fieldGuardCheck(fr, st, fa, false)
 		}
+		// a parameter that closures capture lives in a heap cell, but when neither the function nor its closures
+		// ever assign it (and its address goes nowhere else) every load yields the value passed in
+		if a, ok := ins.X.(*ssa.Alloc); ok && a.Heap {
+			if p := spilledParam(a); p != nil {
+				if pv, ok := fr.vals[p]; ok && pv.T.S != "" {
+					fr.vals[ins] = pv
+					return
+				}
+			}
+		}
 		v := w.loadPtr(st, x, ins.X.Type())
 		// recover static knowledge about function values
 		if fv, ok := w.closures[v.T.S]; ok && fv != nil {
@@ -1349,4 +1359,72 @@ func analyzeLoops(fn *ssa.Function) *loopInfo {
 		li.order = append(li.order, post[i])
 	}
 	return li
+}
+
+var spilledParamCache = map[*ssa.Alloc]*ssa.Parameter{}
+var spilledParamDone = map[*ssa.Alloc]bool{}
+
+// spilledParam returns the parameter p when a is the cell p is spilled into at function entry and nothing else
+// ever writes the cell: the only store is the spill, every other use is a load or a capture by a closure that
+// itself only loads (or captures) it.
+func spilledParam(a *ssa.Alloc) *ssa.Parameter {
+	if spilledParamDone[a] {
+		return spilledParamCache[a]
+	}
+	spilledParamDone[a] = true
+	refs := a.Referrers()
+	if refs == nil {
+		return nil
+	}
+	var param *ssa.Parameter
+	var readOnly func(v ssa.Value, refs []ssa.Instruction, depth int) bool
+	readOnly = func(v ssa.Value, refs []ssa.Instruction, depth int) bool {
+		if depth > 4 {
+			return false
+		}
+		for _, r := range refs {
+			switch x := r.(type) {
+			case *ssa.UnOp:
+				if x.Op != token.MUL {
+					return false
+				}
+			case *ssa.DebugRef:
+			case *ssa.Store:
+				if x.Addr != v {
+					return false // the address itself is stored somewhere
+				}
+				p, isParam := x.Val.(*ssa.Parameter)
+				if !isParam || v != ssa.Value(a) || param != nil || x.Block() == nil || x.Block().Index != 0 {
+					return false
+				}
+				param = p
+			case *ssa.MakeClosure:
+				fn, ok := x.Fn.(*ssa.Function)
+				if !ok {
+					return false
+				}
+				for i, b := range x.Bindings {
+					if b != v {
+						continue
+					}
+					if i >= len(fn.FreeVars) {
+						return false
+					}
+					fv := fn.FreeVars[i]
+					fr := fv.Referrers()
+					if fr == nil || !readOnly(fv, *fr, depth+1) {
+						return false
+					}
+				}
+			default:
+				return false
+			}
+		}
+		return true
+	}
+	if !readOnly(a, *refs, 0) || param == nil {
+		return nil
+	}
+	spilledParamCache[a] = param
+	return param
 }
